@@ -209,7 +209,14 @@ where
     type Stream = Self;
 
     fn into_parts(self) -> (Vector<VectorDiffContainerStreamElement<S>>, Self::Stream) {
-        (self.buffered_vector.clone(), self)
+        // The values the next observer starts from are the current view, not
+        // the buffered copy of the underlying vector.
+        let mut values = self.buffered_vector.clone();
+        if self.limit < values.len() {
+            values.truncate(self.limit);
+        }
+
+        (values, self)
     }
 }
 
